@@ -133,7 +133,9 @@ func (e *Executor) ExecWithTimeout(ctx context.Context, target Target, dir strin
 	go runCommand(cmd, ch)
 	select {
 	case err = <-ch:
-		// Do nothing.
+		// The command itself has finished; make sure nothing it left running in its process group
+		// (e.g. background jobs) outlives it. This fails harmlessly if the group is already empty.
+		syscall.Kill(-cmd.Process.Pid, syscall.SIGKILL)
 	case <-ctx.Done():
 		err = ctx.Err()
 		e.KillProcess(cmd)
